@@ -14,8 +14,8 @@ type structLeaf struct {
 	t    types.Type
 }
 
-// structLeaves lists the scalar leaf fields of a struct type (ok=false if it contains arrays).
-func structLeaves(t types.Type) ([]structLeaf, bool) {
+// structLeaves lists the scalar leaf fields of a struct type as paths of field ids (ok=false if it contains arrays).
+func structLeaves(c *Ctx, t types.Type) ([]structLeaf, bool) {
 	st, ok := t.Underlying().(*types.Struct)
 	if !ok {
 		return nil, false
@@ -25,17 +25,17 @@ func structLeaves(t types.Type) ([]structLeaf, bool) {
 		ft := st.Field(i).Type()
 		switch ft.Underlying().(type) {
 		case *types.Struct:
-			sub, ok := structLeaves(ft)
+			sub, ok := structLeaves(c, ft)
 			if !ok {
 				return nil, false
 			}
 			for _, s := range sub {
-				out = append(out, structLeaf{append([]int{i}, s.path...), s.t})
+				out = append(out, structLeaf{append([]int{c.fid(st, i)}, s.path...), s.t})
 			}
 		case *types.Array:
 			return nil, false
 		default:
-			out = append(out, structLeaf{[]int{i}, ft})
+			out = append(out, structLeaf{[]int{c.fid(st, i)}, ft})
 		}
 	}
 	return out, true
@@ -81,7 +81,7 @@ func (e *Encoder) appendArr(cm *ssa.CallCommon, args []Val, st *State, pc string
 	// array value with the appended elements stored on top: no quantified copy axiom is needed.
 	res := c.define("app", "Slice", fmt.Sprintf("(ite %s (mkslice %s %s %s %s) (mkslice %s %s %s %s))", inplace, sbase, soff, n, scap, newloc, soff, n, newcap))
 	if !scalarElem(elem) {
-		leaves, ok := structLeaves(elem)
+		leaves, ok := structLeaves(c, elem)
 		if !ok || !known {
 			e.havocAll(st, "append of aggregate elements (contents not tracked)")
 			return Val{T: s.T, S: res}
